@@ -901,7 +901,7 @@ static void crash_handler(int sig, siginfo_t *si, void *uc)
 
 /* ------------------------------------------------------------------ init */
 /* ------------------------------------------------------------ signal storm
- * --sigstorm=<Hz>: a thread delivers SIGUSR1 (no-op handler installed WITHOUT SA_RESTART) to random
+ * --sigstorm=<Hz>: a thread delivers SIGUSR1 or SIGPROF (no-op handlers installed WITHOUT SA_RESTART) to random
  * threads of the process, workers of the library included: every blocking system call of the library
  * (sem_timedwait, futex, epoll_wait, read, write) then also returns EINTR at arbitrary points. An
  * interrupted wait is neither a time-out nor a wake-up. */
@@ -926,7 +926,11 @@ static void *sigstorm_main(void *arg)
 				closedir(d);
 			}
 		}
-		if (n) { syscall(SYS_tgkill, pid, tids[vf_rnd_n(&r, (uint32_t)n)], SIGUSR1); atomic_fetch_add(&g_sig_sent, 1); }
+		/* SIGUSR1 reaches the harness's own threads only: the library blocks it on its workers and on the manager thread
+		 * (_dispatch_sigmask). SIGPROF is the one asynchronous signal it leaves unblocked there, for sampling profilers:
+		 * that is the signal that interrupts sem_timedwait in idle workers, epoll_wait in the manager, read/write in dispatch
+		 * I/O and the futex waits of items that block on worker threads. */
+		if (n) { syscall(SYS_tgkill, pid, tids[vf_rnd_n(&r, (uint32_t)n)], vf_rnd_n(&r, 3) ? SIGPROF : SIGUSR1); atomic_fetch_add(&g_sig_sent, 1); }
 		long period = 1000000000l / g_sigstorm_hz;
 		struct timespec ts = { 0, (long)vf_rnd_n(&r, (uint32_t)(2 * period)) + 1 };
 		if (ts.tv_nsec >= 1000000000l) ts.tv_nsec = 999999999l;
@@ -1004,6 +1008,7 @@ void vf_init(int argc, char **argv, const char *harness)
 		struct sigaction sa; memset(&sa, 0, sizeof(sa));
 		sa.sa_handler = vf_sig_noop;   /* no SA_RESTART */
 		sigaction(SIGUSR1, &sa, NULL);
+		sigaction(SIGPROF, &sa, NULL);
 		pthread_t st;
 		if (pthread_create(&st, NULL, sigstorm_main, NULL)) vf_fail("cannot start the signal thread");
 	}
